@@ -36,7 +36,8 @@ func (l *Lexer) readChar() {
 	var charRune rune
 	if l.readPosition < len(l.input) {
 		charRune, charSize = utf8.DecodeRuneInString(l.input[l.readPosition:])
-		if charRune == utf8.RuneError {
+		// utf8.RuneError is also the decoding of a genuine U+FFFD character (width 3).
+		if charRune == utf8.RuneError && charSize <= 1 {
 			panic(fmt.Sprintf("Unable to parse invalid UTF-8 character on line %d and character %d", l.lineNumber, l.charNumber))
 		}
 	}
